@@ -2,7 +2,7 @@ import DimodModel.PenaltyOpts
 import DimodProofs.IneqCoded
 
 /-! Round 7 (C16): the slack count over the extracted rule — which counts `n` give exactly `0..S`, and what an
-    overshooting float `log2` does (D65); the values the `cross_zero` slack variable adds; the `unbalanced`
+    overshooting float `log2` does (D65g); the values the `cross_zero` slack variable adds; the `unbalanced`
     penalisation as coded. -/
 
 open Pen Generated.SlackRule
@@ -38,7 +38,7 @@ theorem coeffs_cover_pow_pred (n S : Nat) (h : S + 1 = 2^n) (t : Nat) : Reps (sl
   omega
 
 /-- **the count overshoots and `S < 2^n − 1`**: the value `S + 1` is a slack total — the slack can absorb a
-    violation by one (mechanism of D65: float `floor(log2 S)` returns `k` for `S` just below `2^k`) -/
+    violation by one (mechanism of D65g: float `floor(log2 S)` returns `k` for `S` just below `2^k`) -/
 theorem coeffs_overshoot (n S : Nat) (h : S + 1 < 2^n) : Reps (slackCoeffsBy n S) (S + 1) := by
   have hlt : ¬ 2^n ≤ S := by omega
   simp only [slackCoeffsBy, hlt, if_false, reps_nil_append, pows_reps_iff]
